@@ -59,10 +59,11 @@ def world(case, nb):
     n = case["n"]
     s.reset(n, nb)
     L, sx, sy = case["L"], case["sx"], case["sy"]
+    Lp = case.get("Lp", L)       # the two axes may have different extents, i.e. different mesh spacings
     fill = np.full(nb, 1.0 / nb, np.float32)
     kw = dict(filling=fill, qscale=case.get("qscale", 1.2e-3), pscale=case.get("pscale", 6.11e5))
-    a = s.ps_new(-L + sx, L + sx, -L + sy, L + sy, **kw)
-    b = s.ps_new(-L + sx, L + sx, -L + sy, L + sy, **kw)
+    a = s.ps_new(-L + sx, L + sx, -Lp + sy, Lp + sy, **kw)
+    b = s.ps_new(-L + sx, L + sx, -Lp + sy, Lp + sy, **kw)
     return s, a, b
 
 
@@ -182,7 +183,8 @@ def run_fp_sum(case, r, cls):
     near = np.abs(k - zb) <= 3.5
     near_abs = np.abs(d64[:, :, near]).sum()
     e1 = case["e1"]
-    pmax = max(abs(-case["L"] + case["sy"]), abs(case["L"] + case["sy"]))
+    Lp_ = case.get("Lp", case["L"])
+    pmax = max(abs(-Lp_ + case["sy"]), abs(Lp_ + case["sy"]))
     wscale = 1 + 4 * e1 / dp ** 2 + 2 * e1 * pmax / dp      # sum of |weights| of the stencil (rounding scale)
     allow = TOL_SUM * wscale * sabs
     if case["deriv"] == 4 and case["fptype"] in (1, 3):
@@ -215,7 +217,8 @@ def run_col(case):
         out = s.ps_data(b).astype(np.float64)
         cs = out.sum(axis=2)                      # (nb, n): column sum for source (x, ks[x])
         e1 = case["e1"]
-        pmax = max(abs(-case["L"] + case["sy"]), abs(case["L"] + case["sy"]))
+        Lp_ = case.get("Lp", case["L"])
+        pmax = max(abs(-Lp_ + case["sy"]), abs(Lp_ + case["sy"]))
         wscale = 1 + 4 * e1 / dp ** 2 + 2 * e1 * pmax / dp
         near = np.abs(ks - zb) <= 3.5
         allow = np.full(n, 1e-6 * wscale)
@@ -262,6 +265,8 @@ def cases(draw):
              dkind=draw(st.sampled_from(["noise", "pos", "altsign", "impulse"])),
              L=draw(st.sampled_from([4.0, 6.0, 8.0])), sx=draw(st.sampled_from([0.0, 0.0, 0.5, -1.25])),
              sy=draw(st.sampled_from([0.0, 0.0, -0.75, 1.5])))
+    if draw(st.integers(0, 3)) == 0 and kind in ("kick", "fp", "identity", "drift", "rf_lin"):
+        c["Lp"] = draw(st.sampled_from([3.0, 5.0, 9.0, 12.0]))
     lim = max(0.0, n / 2 - it - 2)
     if kind == "kick":
         c["axis"] = draw(st.sampled_from([0, 1]))
